@@ -1,3 +1,188 @@
-/- C14 — property theorems (stub: the property is not claimed yet). -/
+/-
+  C14 — XPath evaluation selects exactly the elements the expression denotes.
+
+  Property theorems only.  Model: AHP/Model/XPath.lean (flat body elements, `pass`, `reduce`, `resolve`,
+  the constant folder `optimize`, axes, `filterByBody`, the step driver `evaluate`).  Specification:
+  AHP/Model/XPathSpec.lean (syntax trees `P` with three precedence levels, the recursive evaluator
+  `evalP`, `specAxis`, `specEval`).  Lemmas: AHP/Lemmas/XPath*.lean.
+
+  Numbers are an arbitrary `Num N` throughout (the driver instantiates `Float`).
+  `Option` = "raises"; error classes are not distinguished.
+-/
+import AHP.Lemmas.XPathSteps
+import AHP.Lemmas.XPathOpt
+import AHP.Lemmas.XPathDoc
+import AHP.Lemmas.XPathPipeline
+import AHP.Gen.Tables
 namespace AHP.C14
+open AHP AHP.XPath
+
+section
+variable {N : Type} (nm : Num N)
+
+/-! #### C14a — flat pass evaluation = precedence-respecting evaluation -/
+
+/-- C14a: for every predicate syntax tree of the three-level grammar (any size, any nesting of groups
+    and function arguments) and every tag, evaluating the *flat* body-element list by the passes of
+    `evaluateLevelForTags` (sub-levels and generators, then arithmetic/concat, then comparisons, then
+    and/or, each left to right) gives what the recursive evaluator gives: operands first, then the
+    operator.  Includes failure: one raises iff the other does. -/
+theorem flat_eval_eq_tree_eval (c : Ctx) (p : P N) (hw : P.wf 3 p = true) :
+    evalLevel nm c (flatten p) = evalP nm c p :=
+  (flatOK nm c p 3 hw).evalLevel
+
+/-- C14a at value level: the three passes over the in-order list of a value tree compute its value. -/
+theorem passes_compute_tree_value (t : VT N) (hw : VT.wf 3 t = true) : reduce nm t.flat = t.eval nm :=
+  reduce_flat nm t hw
+
+/-- C14a for the filter: `filterTagsByBody` keeps exactly the elements whose predicate value is true or,
+    for a number `n`, that are the `n`-th among their same-named siblings (`keepTag`). -/
+theorem filter_eq_spec (d : Doc) (p : P N) (hw : P.wf 3 p = true) (cur : List Nat) (hn : cur.Nodup) :
+    filterByBody nm d (flatten p) cur = specFilter nm d p cur :=
+  filterByBody_eq_spec nm d p hw cur hn
+
+/-! #### C14b — constant folding is sound -/
+
+/-- C14b: the (repaired) compile-time folder does not change what a level evaluates to, for any tag:
+    if `_optimizeStaticValueCalculations` returns `l'` for the flat form of a well-formed predicate whose
+    leaves may be static values or anything dynamic, then `l'` and the original evaluate alike; if the
+    pre-calculation raises, the original raises for every tag. -/
+theorem folding_sound (c : Ctx) (t : MT N) (hw : MT.wf 3 t = true) :
+    match optimize nm t.flat with
+    | some l' => evalLevel nm c l' = evalLevel nm c t.flat
+    | none => evalLevel nm c t.flat = none :=
+  optimize_sound nm c t hw
+
+/-- C14b, the whole compile step: `parseBodyStringIntoBodyElements` on the flat form of a well-formed
+    predicate (number and string literals) — groups and function arguments optimised inside-out, an
+    all-static `concat(…)` replaced by its value, then the folder — yields a level that evaluates, for
+    every tag, to what the syntax tree denotes; and when the compile step raises, the predicate has no
+    value on any tag. -/
+theorem compile_sound (p : P N) (hw : P.wf 3 p = true) (hn : P.noNull p = true) :
+    match compileLevel nm (flatten p) with
+    | some l' => ∀ c, evalLevel nm c l' = evalP nm c p
+    | none => ∀ c, evalP nm c p = none := by
+  have h := levelOK_of_each nm p (eachOK nm p 3 hw hn)
+  unfold LevelOK at h
+  cases hc : compileLevel nm (flatten p) with
+  | none => rw [hc] at h; exact h
+  | some l' =>
+    rw [hc] at h
+    obtain ⟨t', rfl, w', _, ev'⟩ := h
+    intro c
+    rw [MT.evalLevel_flat nm c t' w', ev']
+
+/-- C14b on the pinned defects: `[@n + 1 = 3]`, `[@n - 1 - 1 = 0]` and `[2 = 1 + @n]` are left alone;
+    `["a" || "b" = "ab"]` folds to `true`. -/
+example (one two three zero : N) (hp : nm.parse ['a', 'b'] = none) :
+    optimize nm [.attr ['n'], .op (.arith .add), .val (.num one), .op (.cmp .eq), .val (.num three)]
+      = some [.attr ['n'], .op (.arith .add), .val (.num one), .op (.cmp .eq), .val (.num three)] ∧
+    optimize nm [.attr ['n'], .op (.arith .sub), .val (.num one), .op (.arith .sub), .val (.num one), .op (.cmp .eq), .val (.num zero)]
+      = some [.attr ['n'], .op (.arith .sub), .val (.num one), .op (.arith .sub), .val (.num one), .op (.cmp .eq), .val (.num zero)] ∧
+    optimize nm [.val (.num two), .op (.cmp .eq), .val (.num one), .op (.arith .add), .attr ['n']]
+      = some [.val (.num two), .op (.cmp .eq), .val (.num one), .op (.arith .add), .attr ['n']] ∧
+    optimize nm [.val (.str ['a']), .op (.arith .concat), .val (.str ['b']), .op (.cmp .eq), .val (.str ['a', 'b'])]
+      = some [.val (.bool true)] := by
+  refine ⟨rfl, rfl, rfl, ?_⟩
+  simp [optimize, optPass, foldAt, leftOk, rightOk, applyOp, applyArith, applyCmp, toFloat, rawEq, Op.cls, hp]
+
+/-! #### C14c — axes -/
+
+/-- C14c: in a document table listed in pre-order, the recursive descendant walk of the code
+    (`getAllChildNodes` / `_subset`) yields exactly the elements that have the start element among their
+    ancestors, in document order. -/
+theorem descendants_eq_spec (d : Doc) (hp : PreOrder d) (i : Nat) : d.desc i = specDesc d i :=
+  desc_eq_specDesc d hp i
+
+/-- C14c: `PreOrder` is what the driver checks on every document of the correspondence run. -/
+theorem preorder_check_sound (d : Doc) (h : d.isPreOrder = true) : PreOrder d := preOrder_of_check d h
+
+/-- C14c: every find-function the parser can pick (lead-in `/` or `//`, first step or not, each of the six
+    axes) is the specification's axis-and-name-test. -/
+theorem find_function_eq_axis (d : Doc) (hp : PreOrder d) (first : Bool) (s : SStep N) (i : Nat) :
+    stepFn d first { dbl := s.dbl, axis := s.axis, name := s.name, preds := s.preds.map flatten } i
+      = specAxis d first s i :=
+  stepFn_eq_spec d (desc_eq_specDesc d hp) first s i
+
+/-- C14c: one step keeps first occurrences in order (`TagCollection` construction). -/
+theorem step_dedup (l : List Nat) : (dedup l).Nodup ∧ ∀ x, x ∈ dedup l ↔ x ∈ l :=
+  ⟨nodup_dedup l, fun _ => mem_dedup⟩
+
+/-! #### C14d — the driver and the entry points -/
+
+/-- C14d: for every expression whose predicates are well-formed syntax trees, on every pre-order document
+    and every start collection, the step driver of `XPathExpression.evaluate` over the flat, uncompiled
+    body-element lists selects exactly what the expression denotes (`specEval`): steps left to right,
+    each mapping every current element through axis and name test keeping first occurrences, each
+    predicate filtering by truth or position. -/
+theorem evaluate_eq_denotation (d : Doc) (hp : PreOrder d) (ss : List (SStep N))
+    (hw : ∀ s ∈ ss, ∀ p ∈ s.preds, P.wf 3 p = true) (start : List Nat) :
+    evaluate nm d (flattenSteps ss) start = specEval nm d ss start :=
+  runSteps_eq_spec nm d (desc_eq_specDesc d hp) ss hw true (dedup start)
+
+/-- C14d, the whole pipeline: compile (`XPathExpression.__init__`: tokenised form → constant folding) and
+    evaluate.  If the expression compiles, evaluation on every pre-order document from every start
+    collection is the denotation; if compiling raises, some predicate of the expression has no value on
+    any tag (e.g. `"a" + 1`) — the only situation in which the library rejects an expression whose
+    denotation on a particular document may still be defined (because no element reaches that predicate). -/
+theorem compile_evaluate_eq_denotation (d : Doc) (hp : PreOrder d) (ss : List (SStep N))
+    (hw : ∀ s ∈ ss, ∀ p ∈ s.preds, P.wf 3 p = true ∧ P.noNull p = true) :
+    match compileSteps nm (flattenSteps ss) with
+    | some cs => ∀ start, evaluate nm d cs start = specEval nm d ss start
+    | none => ∃ s ∈ ss, ∃ p ∈ s.preds, ∀ c, evalP nm c p = none := by
+  have h := compileSteps_for nm ss hw
+  cases hc : compileSteps nm (flattenSteps ss) with
+  | none => rw [hc] at h; exact h
+  | some cs =>
+    rw [hc] at h
+    intro start
+    exact runSteps_for nm d (desc_eq_specDesc d hp) cs ss h true (dedup start)
+
+/-- C14d (entry points): parser → its root nodes, element → itself, collection → its members;
+    every entry point is `evaluate` on that start collection, so they agree by construction. The
+    start collection is de-duplicated first. -/
+theorem entry_points_agree (d : Doc) (steps : List (Step N)) (i : Nat) :
+    evaluate nm d steps [i] = evaluate nm d steps [i, i] := by
+  simp [evaluate, dedup]
+
+end
+
+/-! #### C14e — table obligations over the tables regenerated from `_body.py` on every run -/
+
+def idxOfStr (x : String) : List String → Nat
+  | [] => 0
+  | y :: ys => if y = x then 0 else idxOfStr x ys + 1
+
+/-- C14e: the body tokenizer tries `<=` / `>=` before `<` / `>`, and static values (so that `-.5` can be a
+    literal) and comparisons before the arithmetic operators. -/
+theorem operator_order_ok :
+    idxOfStr "<=" Gen.xpathComparisonOrder < idxOfStr "<" Gen.xpathComparisonOrder ∧
+    idxOfStr ">=" Gen.xpathComparisonOrder < idxOfStr ">" Gen.xpathComparisonOrder ∧
+    idxOfStr "!=" Gen.xpathComparisonOrder < Gen.xpathComparisonOrder.length ∧
+    idxOfStr "=" Gen.xpathComparisonOrder < Gen.xpathComparisonOrder.length ∧
+    Gen.xpathBodyElementOrder =
+      ["VALUE_GENERATOR_RES", "STATIC_VALUES_RES", "COMPARISON_RES", "OPERATION_RES", "BOOLEAN_OPS_RES"] := by
+  decide
+
+/-- C14e: each comparison / arithmetic / boolean class applies its own relation. -/
+theorem operator_relations_ok :
+    (∀ p ∈ [("=", "Eq"), ("!=", "NotEq"), ("<", "Lt"), ("<=", "LtE"), (">", "Gt"), (">=", "GtE")],
+        p ∈ Gen.xpathComparisonRelation) ∧ Gen.xpathComparisonRelation.length = 6 ∧
+    Gen.xpathOperationRelation =
+      [("||", "Add"), ("+", "Add"), ("-", "Sub"), ("*", "Mult"), ("div", "Div"), ("mod", "Mod")] ∧
+    Gen.xpathBooleanRelation = [("and", "And"), ("or", "Or")] := by
+  decide
+
+/-- C14e: the passes run in the order the model numbers the operator classes (0, 1, 2). -/
+theorem pass_order_ok :
+    Gen.xpathPassOrder = ["BodyElementOperation", "BodyElementComparison", "BodyElementBooleanOps"] := by
+  decide
+
+/-! #### Non-vacuity -/
+
+/-- `[@n + 1 * 2 = 6 and @k != "x"]`-shaped tree: well-formed, and the flat evaluation is defined. -/
+example : P.wf 3 (P.bin (.bool .and)
+      (P.bin (.cmp .eq) (P.bin (.arith .mul) (P.bin (.arith .add) (P.attr ['n']) (P.lit (.num (1 : Nat)))) (P.lit (.num 2))) (P.lit (.num 6)))
+      (P.bin (.cmp .ne) (P.attr ['k']) (P.lit (.str ['x'])))) = true := by decide
+
 end AHP.C14
